@@ -831,3 +831,38 @@ def ssa_params(fn: ast.FunctionDef, skip=('rng', 'self')) -> ast.FunctionDef:
             version[t.id] += 1
             t.id = vname(t.id)
     return fn
+
+
+def break_to_flag(loop: ast.For, flag: str) -> Optional[List[ast.stmt]]:
+    """`for x in it: A; if c: break; B`  ==>  `flag = True; for x in it: if flag: A; flag = flag
+    and not c; if flag: B` -- the statements that replace the loop, or None when the loop does
+    not have this shape.  Side conditions: one `break`, as the whole body of a top-level `if`
+    without `else` in the loop body; no `continue`; no loop `else`; the iterable is a plain
+    name (iterating the rest of it has no effect).  The executions are the same up to the
+    (effect-free) iteration over the remaining elements."""
+    if loop.orelse or not isinstance(loop.iter, ast.Name):
+        return None
+    breaks = [n for n in ast.walk(loop) if isinstance(n, ast.Break)]
+    conts = [n for n in ast.walk(loop) if isinstance(n, ast.Continue)]
+    if len(breaks) != 1 or conts:
+        return None
+    at = [i for i, s in enumerate(loop.body)
+          if isinstance(s, ast.If) and not s.orelse and len(s.body) == 1 and s.body[0] is breaks[0]]
+    if len(at) != 1:
+        return None
+    i = at[0]
+    if flag in _names(loop):
+        return None
+    F = lambda: ast.Name(flag, ast.Load())
+    upd = ast.Assign([ast.Name(flag, ast.Store())],
+                     ast.BoolOp(ast.And(), [F(), ast.UnaryOp(ast.Not(), loop.body[i].test)]))
+    inner: List[ast.stmt] = list(loop.body[:i]) + [upd]
+    if loop.body[i + 1:]:
+        inner.append(ast.If(F(), list(loop.body[i + 1:]), []))
+    new_loop = ast.For(loop.target, loop.iter, [ast.If(F(), inner, [])], [], None)
+    init = ast.Assign([ast.Name(flag, ast.Store())], ast.Constant(True))
+    out = [init, new_loop]
+    for s in out:
+        ast.copy_location(s, loop)
+        ast.fix_missing_locations(s)
+    return out
